@@ -22,6 +22,14 @@ def groups(n, seed):
         elif hist == 2:
             first["lin_fault"] = ("lin", None, int(rng.integers(0, 12)))
             first["twin"] = "none"
+        if hist == 3 and i % 8 == 3:
+            # two solvers sharing ONE Params object; the first one is built for a different (unconstrained) problem
+            other = ("repo", "rosenbrock") if i % 16 == 3 else ("convex_qp", int(rng.integers(0, 2 ** 31)), 3, 0, {})
+            gs.append({"tag": "C10.sharedparams", "runs": [
+                {"prob": other, "params": pk, "run": "A", "algkey": 1, "twin": "none"},
+                {"prob": ps, "params": pk, "run": "B", "algkey": 2, "twin": "C10", "share_params_with": "A"},
+                {"prob": ps, "params": pk, "run": "C", "algkey": 2, "twin": "C10"}]})
+            continue
         runs = [first,
                 {"prob": ps, "params": pk, "run": "B", "algkey": 2, "twin": "C10", "same_solver_as": "A"},
                 {"prob": ps, "params": pk, "run": "C", "algkey": 2, "twin": "C10"},
